@@ -15,8 +15,8 @@ PROP = "C13"
 THEOREMS = ["Lbfgsb.C13.filter_keeps_newest", "Lbfgsb.C13.filter_subsequence", "Lbfgsb.C13.filter_curvature",
             "Lbfgsb.C13.identity_filter_noop",
             "Lbfgsb.C13.memStep_mats_current", "Lbfgsb.C13.identity_update_transparent", "Lbfgsb.C13.curv_test_symmetric",
-            "Lbfgsb.C13.redefinition_pairs_curvature"]
-MODULES = ["LbfgsbVerif.Props.C13", "LbfgsbVerif.Props.C13Run", "LbfgsbVerif.Props.C13Mem"]
+            "Lbfgsb.C13.redefinition_pairs_curvature", "Lbfgsb.C13.redefinition_acts_as_restart"]
+MODULES = ["LbfgsbVerif.Props.C13", "LbfgsbVerif.Props.C13Run", "LbfgsbVerif.Props.C13Mem", "LbfgsbVerif.Props.C13Restart"]
 
 
 def subseq_pairs(Xs: List[np.ndarray], Gs: List[np.ndarray], sk: np.ndarray, yk: np.ndarray) -> bool:
